@@ -24,5 +24,21 @@ def _cfg(rng, cfg):
     cfg["fk_on"] = rng.random() < 0.6      # with enforcement off a wrong or missing statement shows up as a row mismatch instead of an error
 
 
-gen_case = _orm.make_gen({"follow": 5, "delete": 4, "tag_add": 3, "set_k": 4, "k_rename": 3, "bulk": 1, "m_ops": 1}, _cfg)
+def _shape(rng, pool, cfg):
+    """natural primary key changes while rows of other classes (base and joined-table subclass instances) refer to the key"""
+    if rng.random() > 0.15:
+        return None
+    r = lambda: rng.randrange(64)
+    odd3 = lambda: 1 + 3 * rng.randrange(20)
+    prog = [["mk", rng.choice((0, 1, 2, 2)), odd3()] for _ in range(rng.randint(1, 3))] + [["mk", 6, odd3()] for _ in range(rng.randint(1, 2))]
+    prog += [["set_k", r(), 1 + 4 * rng.randrange(15) + rng.randrange(3)] for _ in range(rng.randint(1, 4))]
+    prog.append([rng.choice(("commit", "flush", "commit")), 0, 0])
+    for _ in range(rng.randint(1, 3)):
+        prog.append(["k_rename", r(), r()])
+        prog.append([rng.choice(("flush", "requery", "set", "set_k", "commit")), r(), r()])
+    prog += [[rng.choice(pool), r(), r()] for _ in range(rng.randint(0, 8))]
+    return prog
+
+
+gen_case = _orm.make_gen({"follow": 5, "delete": 4, "tag_add": 3, "set_k": 4, "k_rename": 3, "bulk": 1, "m_ops": 1}, _cfg, shape=_shape)
 run_case = _orm.make_run(("C30",))
